@@ -35,7 +35,7 @@ fn meta() -> Meta {
     Meta {
         id: "C15",
         level: "model_checking",
-        rule: "records: every word up to the depth bound over {W(1), W(5), W(N), W(3N), R, F, Reopen (the file still in place), reset_flw onto the same file (append)} x {no rotation, Size(N)+Numbers, Size(N)+TimestampsDirect}; chunks: every sequence of <= 3 (quick) / 4 (thorough) chunks over {empty, a, F, S, LF, ab+LF, F+LF, 0x00, 0xFF 0xFE, 10 KiB, and three chunks of message-capacity+1 bytes ending in S or F}, plus each of the 256 single-byte chunks alone and between two x chunks, with and without rotation; each executed under Direct, BufferDontFlush(4), BufferDontFlush(4096), BufferAndFlush(64), Async{1,4}, Async{2,64}, Async default (async: under the late-writer and the early-writer schedule); states = distinct (rotation config, file-size vector) reached in direct mode; non-trivial = the direct-mode run produced >= 2 files or a chunk that equals a control message is present; a fourth rotation setting compresses every rotated file; for chunk sequences the list of files (names and contents) of every mode equals that of direct mode; reset_flw onto the same file (append) is a letter of the record alphabet; for chunk sequences with rotation the files of direct mode equal the prediction of the size criterion (an empty chunk, too, goes to the next file when the current one exceeds N)",
+        rule: "records: every word up to the depth bound over {W(1), W(5), W(N), W(3N), W(500) (more than twice the capacity of the thread-local format buffer), R, F, Reopen (the file still in place), reset_flw onto the same file (append), the same with a builder that asks for the other line ending} x {no rotation, Size(N)+Numbers, Size(N)+TimestampsDirect}; chunks: every sequence of <= 3 (quick) / 4 (thorough) chunks over {empty, a, F, S, LF, ab+LF, F+LF, 0x00, 0xFF 0xFE, 10 KiB, and three chunks of message-capacity+1 bytes ending in S or F}, plus each of the 256 single-byte chunks alone and between two x chunks, with and without rotation; each executed under Direct, BufferDontFlush(4), BufferDontFlush(4096), BufferAndFlush(64), Async{1,4}, Async{2,64}, Async default (async: under the late-writer and the early-writer schedule); states = distinct (rotation config, file-size vector) reached in direct mode; non-trivial = the direct-mode run produced >= 2 files or a chunk that equals a control message is present; a fourth rotation setting compresses every rotated file; for chunk sequences the list of files (names and contents) of every mode equals that of direct mode; reset_flw onto the same file (append) is a letter of the record alphabet; for chunk sequences with rotation the files of direct mode equal the prediction of the size criterion (an empty chunk, too, goes to the next file when the current one exceeds N)",
         assumptions: vec![
             "N = 12; virtual clock frozen, so names are comparable across modes".into(),
             "asynchronous runs are serialised by the controlled scheduler (two canonical schedules), not free running".into(),
@@ -59,7 +59,7 @@ fn rotations() -> Vec<Option<NamingK>> {
     vec![None, Some(NamingK::Numbers), Some(NamingK::TimestampsDirect), Some(NamingK::NumbersDirect)]
 }
 fn rec_alphabet() -> Vec<HOp> {
-    vec![HOp::W(5), HOp::W(1), HOp::W(N as usize), HOp::W(3 * N as usize), HOp::R, HOp::F, HOp::Reopen, HOp::ResetSame]
+    vec![HOp::W(5), HOp::W(1), HOp::W(N as usize), HOp::W(3 * N as usize), HOp::R, HOp::F, HOp::Reopen, HOp::ResetSame, HOp::W(500), HOp::ResetOtherEnding]
 }
 fn chunk_alphabet() -> Vec<Vec<u8>> {
     vec![
